@@ -1299,8 +1299,27 @@ impl<'r> Lowerer<'r> {
 
         self.new_block(lbl_condition);
 
-        let examinee = self.expr(condition);
-        let examinee = self.assign_to_var(examinee, TyRef::BOOL);
+        // The condition is evaluated once per iteration, so its temporaries
+        // get their own stack slot and are dropped before we branch.
+        // Otherwise they would live in the enclosing scope, be overwritten
+        // on the next iteration and only be dropped once at the end of that
+        // scope.
+        let examinee = self.undropped_tmp();
+        self.vars.push((examinee.clone(), TyRef::BOOL));
+
+        self.stack_slots.push(Vec::new());
+
+        let val = self.expr(condition);
+        self.do_assign(
+            Place::new(examinee.clone(), TyRef::BOOL),
+            TyRef::BOOL,
+            val,
+        );
+
+        let to_drop = self.stack_slots.pop().unwrap();
+        for (var, ty) in to_drop.into_iter().rev() {
+            self.emit_drop(Place::new(var, ty), ty);
+        }
 
         self.emit_switch(examinee, vec![(1, lbl_body)], Some(lbl_cont));
 
